@@ -121,6 +121,7 @@ package strategy
 //@ inline
 //@ requires consumed(c) == 0 && (forall k :: 0 <= k && k < len(c) ==> c[k].Close > 0)
 //@ ensures[C08,C14] len(result0) >= len(c) && len(result1) == len(c)
+//@ guarantees[C08,C14] "outcome-of-the-returned-actions-on-the-same-closings" len(arg(Outcome, 0, 1)) == len(result0) && (forall k :: 0 <= k && k < len(result0) ==> arg(Outcome, 0, 1)[k] == result0[k]) && len(arg(Outcome, 0, 0)) == len(c) && (forall k :: 0 <= k && k < len(c) ==> arg(Outcome, 0, 0)[k] == c[k].Close) && result1 == res(Outcome, 0)
 //@ ensures[C05] len(c) >= warmup(s) ==> len(result0) == len(c)
 //@ ensures[C05] forall k :: 0 <= k && k < len(result0) ==> 0 - 1 <= result0[k] && result0[k] <= 1
 //@ ensures[C03] consumed(c) == len(c) && closed(result0) && closed(result1)
@@ -130,8 +131,8 @@ package strategy
 //@ typeinv BuyAndHoldStrategy :: warmup(self) == 0
 //@ func BuyAndHoldStrategy.Compute
 //@ requires consumed(snapshots) == 0
-//@ ensures[C05,C06,C08] len(result) == len(snapshots)
-//@ ensures[C05,C06,C08] forall k :: 0 <= k && k < len(result) ==> result[k] == (k == 0 ? Buy : Hold)
+//@ ensures[C05,C06,C08,C13] len(result) == len(snapshots)
+//@ ensures[C05,C06,C08,C13] forall k :: 0 <= k && k < len(result) ==> result[k] == (k == 0 ? Buy : Hold)
 //@ ensures[C03] consumed(snapshots) == len(snapshots) && closed(result)
 //@ ensures[C04] forall k :: 0 <= k && k < len(result) ==> hor(result, k) <= hor(snapshots, k)
 //@ loop#0 invariant consumed(closings) == sent(actions) && sent(actions) >= 1 && !closed(actions)
